@@ -7,16 +7,296 @@ theorem close_not_in_indentToks (cfg : HtmlCfg) (st : HSt) (name : Str) : HTok.t
   unfold indentToks
   cases st.startNewLine <;> cases cfg.doIndent <;> simp
 
+theorem close_not_in_ite_indentToks (cfg : HtmlCfg) (b : Bool) (st : HSt) (name : Str) :
+    HTok.t (Tok.close name) ∉ (if b = true then indentToks cfg st else []) := by
+  cases b <;> simp [close_not_in_indentToks]
+
 theorem endElement_close_iff (cfg : HtmlCfg) (st : HSt) (name : Str) (fl : Nat) (rest : List Nat)
     (h : st.propsStack = fl :: rest) :
-    (HTok.t (Tok.close name) ∈ (endElement cfg st name).2) ↔ (fl &&& flagEMPTY = 0) := by
+    (HTok.t (Tok.close name) ∈ (htmlEndElement cfg st name).2) ↔ (fl &&& flagEMPTY = 0) := by
   have hc := close_not_in_indentToks cfg
-  unfold endElement
+  unfold htmlEndElement
   simp only [h, List.headD_cons, has]
   by_cases he : fl &&& flagEMPTY = 0
   · simp only [he, iff_true]
     rcases st.elemStack with _ | ⟨_ | _, r⟩ <;> simp
   · simp only [he, iff_false]
-    rcases st.elemStack with _ | ⟨_ | _, r⟩ <;> simp [he] <;> (split <;> simp [hc]) 
+    rcases st.elemStack with _ | ⟨_ | _, r⟩ <;> simp [he]
+    all_goals (intro hm; exact close_not_in_ite_indentToks cfg _ _ _ hm)
+
+end XalanModel.C08.Html
+
+namespace XalanModel.C08.Html
+open XalanModel.C08 XalanModel.Generated.C08
+
+/-! ### erasure for FormatterToHTML (HTML path and inherited XML path for namespaced elements) -/
+
+/-- written only because indentation is on -/
+def HTok.isIns : HTok → Bool
+  | .t x => x.isIns
+  | _ => false
+
+def eraseH (l : List HTok) : List HTok := l.filter fun t => !t.isIns
+
+@[simp] theorem eraseH_nil : eraseH [] = [] := rfl
+@[simp] theorem eraseH_append (a b : List HTok) : eraseH (a ++ b) = eraseH a ++ eraseH b := by
+  simp [eraseH, List.filter_append]
+theorem eraseH_cons (t : HTok) (l : List HTok) : eraseH (t :: l) = if t.isIns then eraseH l else t :: eraseH l := by
+  simp only [eraseH, List.filter_cons]; cases t.isIns <;> simp
+
+@[simp] theorem eraseH_indentToks (cfg : HtmlCfg) (st : HSt) : eraseH (indentToks cfg st) = [] := by
+  unfold indentToks
+  cases st.startNewLine <;> cases cfg.doIndent <;> simp [eraseH_cons, HTok.isIns, Tok.isIns]
+
+/-- the configuration with indentation switched off -/
+def noIndent (cfg : HtmlCfg) : HtmlCfg := { cfg with doIndent := false }
+
+@[simp] theorem shouldIndent_noIndent (cfg : HtmlCfg) (st : HSt) : shouldIndent (noIndent cfg) st = false := by
+  simp [shouldIndent, noIndent]
+
+/-- the part of the formatter state the non-inserted tokens depend on -/
+def HSt.core (s : HSt) : List Bool × List Bool × List Bool × Nat × List Nat × List Bool :=
+  (s.elemStack, s.isRawStack, s.inScriptElemStack, s.elementLevel, s.propsStack, s.hasNamespaceStack)
+
+theorem wpte_eraseH (s t : HSt) (h : s.core = t.core) :
+    (writeParentTagEnd s).1.core = (writeParentTagEnd t).1.core ∧
+    eraseH (writeParentTagEnd s).2 = (writeParentTagEnd t).2 := by
+  obtain ⟨s1, s2, s3, s4, s5, s6, s7, s8, s9, s10, s11, s12, s13⟩ := s
+  obtain ⟨t1, t2, t3, t4, t5, t6, t7, t8, t9, t10, t11, t12, t13⟩ := t
+  simp only [HSt.core, Prod.mk.injEq] at h
+  obtain ⟨rfl, rfl, rfl, rfl, rfl, rfl⟩ := h
+  unfold writeParentTagEnd
+  rcases s1 with _ | ⟨_ | _, r⟩ <;> simp [HSt.core, eraseH_cons, HTok.isIns, Tok.isIns]
+
+/-! projections of the building blocks: none of them touches the token-relevant part of the state except through
+the element stack -/
+
+def markTop : List Bool → List Bool
+  | false :: r => true :: r
+  | l => l
+
+def gtOut : List Bool → List HTok
+  | false :: _ => [HTok.t .gt]
+  | _ => []
+
+theorem markTop_other (l : List Bool) (h : ∀ r, l = false :: r → False) : markTop l = l := by
+  rcases l with _ | ⟨_ | _, r⟩ <;> simp [markTop]
+  exact h r rfl
+theorem gtOut_other (l : List Bool) (h : ∀ r, l = false :: r → False) : gtOut l = [] := by
+  rcases l with _ | ⟨_ | _, r⟩ <;> simp [gtOut]
+  exact h r rfl
+
+section wpte
+variable (s : HSt)
+@[simp] theorem wpte_elemStack : (writeParentTagEnd s).1.elemStack = markTop s.elemStack := by
+  unfold writeParentTagEnd
+  split
+  · rename_i rest heq; simp [markTop, heq]
+  · rename_i hne; rw [markTop_other _ hne]
+@[simp] theorem wpte_out : (writeParentTagEnd s).2 = gtOut s.elemStack := by
+  unfold writeParentTagEnd
+  split
+  · rename_i rest heq; simp [gtOut, heq]
+  · rename_i hne; rw [gtOut_other _ hne]
+@[simp] theorem wpte_isRawStack : (writeParentTagEnd s).1.isRawStack = s.isRawStack := by
+  unfold writeParentTagEnd; split <;> rfl
+@[simp] theorem wpte_inScript : (writeParentTagEnd s).1.inScriptElemStack = s.inScriptElemStack := by
+  unfold writeParentTagEnd; split <;> rfl
+@[simp] theorem wpte_level : (writeParentTagEnd s).1.elementLevel = s.elementLevel := by
+  unfold writeParentTagEnd; split <;> rfl
+@[simp] theorem wpte_props : (writeParentTagEnd s).1.propsStack = s.propsStack := by
+  unfold writeParentTagEnd; split <;> rfl
+@[simp] theorem wpte_hasNs : (writeParentTagEnd s).1.hasNamespaceStack = s.hasNamespaceStack := by
+  unfold writeParentTagEnd; split <;> rfl
+end wpte
+
+@[simp] theorem eraseH_gtOut (l : List Bool) : eraseH (gtOut l) = gtOut l := by
+  rcases l with _ | ⟨_ | _, r⟩ <;> simp [gtOut, eraseH_cons, HTok.isIns, Tok.isIns]
+
+section sib
+variable (cfg : HtmlCfg) (s : HSt) (b : Bool)
+@[simp] theorem sib_out : eraseH (startIndentBlock cfg s b).2 = [] := by
+  unfold startIndentBlock; split <;> (try split) <;> simp
+@[simp] theorem sib_elemStack : (startIndentBlock cfg s b).1.elemStack = s.elemStack := by
+  unfold startIndentBlock; split <;> (try split) <;> rfl
+@[simp] theorem sib_isRawStack : (startIndentBlock cfg s b).1.isRawStack = s.isRawStack := by
+  unfold startIndentBlock; split <;> (try split) <;> rfl
+@[simp] theorem sib_inScript : (startIndentBlock cfg s b).1.inScriptElemStack = s.inScriptElemStack := by
+  unfold startIndentBlock; split <;> (try split) <;> rfl
+@[simp] theorem sib_level : (startIndentBlock cfg s b).1.elementLevel = s.elementLevel := by
+  unfold startIndentBlock; split <;> (try split) <;> rfl
+@[simp] theorem sib_props : (startIndentBlock cfg s b).1.propsStack = s.propsStack := by
+  unfold startIndentBlock; split <;> (try split) <;> rfl
+@[simp] theorem sib_hasNs : (startIndentBlock cfg s b).1.hasNamespaceStack = s.hasNamespaceStack := by
+  unfold startIndentBlock; split <;> (try split) <;> rfl
+@[simp] theorem eib_elemStack : (endIndentBlock cfg s b).1.elemStack = s.elemStack := by
+  unfold endIndentBlock; split <;> (try split) <;> rfl
+@[simp] theorem eib_isRawStack : (endIndentBlock cfg s b).1.isRawStack = s.isRawStack := by
+  unfold endIndentBlock; split <;> (try split) <;> rfl
+@[simp] theorem eib_inScript : (endIndentBlock cfg s b).1.inScriptElemStack = s.inScriptElemStack := by
+  unfold endIndentBlock; split <;> (try split) <;> rfl
+@[simp] theorem eib_level : (endIndentBlock cfg s b).1.elementLevel = s.elementLevel := by
+  unfold endIndentBlock; split <;> (try split) <;> rfl
+@[simp] theorem eib_props : (endIndentBlock cfg s b).1.propsStack = s.propsStack := by
+  unfold endIndentBlock; split <;> (try split) <;> rfl
+@[simp] theorem eib_hasNs : (endIndentBlock cfg s b).1.hasNamespaceStack = s.hasNamespaceStack := by
+  unfold endIndentBlock; split <;> (try split) <;> rfl
+end sib
+
+@[simp] theorem eraseH_ite_indentToks (cfg : HtmlCfg) (c : Prop) [Decidable c] (st : HSt) :
+    eraseH (if c then indentToks cfg st else []) = [] := by
+  split <;> simp
+
+section mb
+variable (cfg : HtmlCfg) (s : HSt) (fl : Nat)
+@[simp] theorem mb_out : eraseH (metaBlock cfg s fl).2 =
+    if has fl flagHEADELEM then gtOut s.elemStack ++ (if cfg.omitMeta then [] else [HTok.metaTag cfg.encoding]) else [] := by
+  unfold metaBlock
+  cases has fl flagHEADELEM <;> cases cfg.omitMeta <;> simp [eraseH_cons, HTok.isIns]
+@[simp] theorem mb_elemStack : (metaBlock cfg s fl).1.elemStack = if has fl flagHEADELEM then markTop s.elemStack else s.elemStack := by
+  unfold metaBlock; cases has fl flagHEADELEM <;> cases cfg.omitMeta <;> simp
+@[simp] theorem mb_isRawStack : (metaBlock cfg s fl).1.isRawStack = s.isRawStack := by
+  unfold metaBlock; cases has fl flagHEADELEM <;> cases cfg.omitMeta <;> simp
+@[simp] theorem mb_inScript : (metaBlock cfg s fl).1.inScriptElemStack = s.inScriptElemStack := by
+  unfold metaBlock; cases has fl flagHEADELEM <;> cases cfg.omitMeta <;> simp
+@[simp] theorem mb_level : (metaBlock cfg s fl).1.elementLevel = s.elementLevel := by
+  unfold metaBlock; cases has fl flagHEADELEM <;> cases cfg.omitMeta <;> simp
+@[simp] theorem mb_props : (metaBlock cfg s fl).1.propsStack = s.propsStack := by
+  unfold metaBlock; cases has fl flagHEADELEM <;> cases cfg.omitMeta <;> simp
+@[simp] theorem mb_hasNs : (metaBlock cfg s fl).1.hasNamespaceStack = s.hasNamespaceStack := by
+  unfold metaBlock; cases has fl flagHEADELEM <;> cases cfg.omitMeta <;> simp
+end mb
+
+/-- two configurations that differ at most in `doIndent` and `indent` -/
+def SameButIndent (c1 c2 : HtmlCfg) : Prop :=
+  c2 = { c1 with doIndent := c2.doIndent, indent := c2.indent }
+
+theorem step_eraseH (c1 c2 : HtmlCfg) (hc : SameButIndent c1 c2) (s t : HSt) (e : Ev) (h : s.core = t.core) :
+    (step c1 s e).1.core = (step c2 t e).1.core ∧ eraseH (step c1 s e).2 = eraseH (step c2 t e).2 := by
+  simp only [HSt.core, Prod.mk.injEq] at h
+  obtain ⟨h1, h2, h3, h4, h5, h6⟩ := h
+  have e1 : c2.encoding = c1.encoding := by rw [hc]
+  have e2 : c2.omitMeta = c1.omitMeta := by rw [hc]
+  have e3 : c2.nsPrefixes = c1.nsPrefixes := by rw [hc]
+  have e4 : c2.doctypePublic = c1.doctypePublic := by rw [hc]
+  have e5 : c2.rawSetsPrevText = c1.rawSetsPrevText := by rw [hc]
+  have ens : ∀ n, hasNamespace c2 n = hasNamespace c1 n := by intro n; simp [hasNamespace, e3]
+  have esp : c2.spaceBeforeClose = c1.spaceBeforeClose := by simp [HtmlCfg.spaceBeforeClose, e4]
+  cases e with
+  | startElement n a =>
+    simp only [step, startElement, ens]
+    cases hasNamespace c1 n
+    · simp [htmlStartElement, HSt.core, h1, h2, h3, h4, h5, h6, e1, e2, eraseH_cons, HTok.isIns, Tok.isIns]
+    · simp [xmlStartElement, HSt.core, h1, h2, h3, h4, h5, h6, eraseH_cons, HTok.isIns, Tok.isIns]
+  | endElement n =>
+    simp only [step, endElement, h6]
+    cases t.hasNamespaceStack.headD false
+    · simp only [Bool.false_eq_true, if_false, htmlEndElement, h1, h5]
+      rcases t.elemStack with _ | ⟨_ | _, r⟩ <;>
+        simp [HSt.core, h2, h3, h4, h5, h6, eraseH_cons, HTok.isIns, Tok.isIns] <;>
+        (try split) <;> simp [eraseH_cons, HTok.isIns, Tok.isIns]
+    · simp only [if_true, xmlEndElement, h1]
+      rcases t.elemStack with _ | ⟨_ | _, r⟩ <;>
+        simp [HSt.core, h2, h3, h4, h5, h6, esp, eraseH_cons, HTok.isIns, Tok.isIns] <;>
+        (try (constructor <;> (split <;> split <;> simp)))
+  | characters str =>
+    simp only [step, characters, h2, h3]
+    cases str.isEmpty <;> cases t.inScriptElemStack.headD false <;> cases t.isRawStack.headD false <;>
+      simp [HSt.core, h1, h2, h3, h4, h5, h6, eraseH_cons, HTok.isIns, Tok.isIns]
+  | cdata str =>
+    simp only [step, characters, h2, h3]
+    cases str.isEmpty <;> cases t.inScriptElemStack.headD false <;> cases t.isRawStack.headD false <;>
+      simp [HSt.core, h1, h2, h3, h4, h5, h6, eraseH_cons, HTok.isIns, Tok.isIns]
+  | raw str =>
+    simp only [step, charactersRaw, e5]
+    cases c1.rawSetsPrevText <;>
+      simp [HSt.core, h1, h2, h3, h4, h5, h6, eraseH_cons, HTok.isIns, Tok.isIns]
+  | comment str =>
+    simp [step, comment, HSt.core, h1, h2, h3, h4, h5, h6, eraseH_cons, HTok.isIns, Tok.isIns]
+  | pi tg d =>
+    simp only [step, procInstr]
+    by_cases hl : t.elementLevel = 0 <;>
+      simp [HSt.core, h1, h2, h3, h4, h5, h6, hl, eraseH_cons, HTok.isIns, Tok.isIns]
+
+theorem runFrom_eraseH (c1 c2 : HtmlCfg) (hc : SameButIndent c1 c2) (evs : List Ev) (s t : HSt) (h : s.core = t.core) :
+    (runFrom c1 s evs).1.core = (runFrom c2 t evs).1.core ∧ eraseH (runFrom c1 s evs).2 = eraseH (runFrom c2 t evs).2 := by
+  induction evs generalizing s t with
+  | nil => exact ⟨h, rfl⟩
+  | cons e es ih =>
+    simp only [runFrom]
+    obtain ⟨a1, a2⟩ := step_eraseH c1 c2 hc s t e h
+    obtain ⟨b1, b2⟩ := ih _ _ a1
+    exact ⟨b1, by simp [a2, b2]⟩
+
+theorem serializeToks_eraseH (c1 c2 : HtmlCfg) (hc : SameButIndent c1 c2) (evs : List Ev) :
+    eraseH (serializeToks c1 evs) = eraseH (serializeToks c2 evs) := by
+  have e4 : c2.doctypePublic = c1.doctypePublic := by rw [hc]
+  have e6 : c2.doctypeSystem = c1.doctypeSystem := by rw [hc]
+  have hs : (startDocument c1).1.core = (startDocument c2).1.core ∧
+      eraseH (startDocument c1).2 = eraseH (startDocument c2).2 := by
+    unfold startDocument
+    simp only [e4, e6]
+    exact ⟨trivial, trivial⟩
+  obtain ⟨h1, h2⟩ := hs
+  obtain ⟨_, r2⟩ := runFrom_eraseH c1 c2 hc evs _ _ h1
+  have he : ∀ (c : HtmlCfg) (st : HSt), eraseH (endDocument c st) = [] := by
+    intro c st; unfold endDocument; split <;> simp [eraseH_cons, HTok.isIns, Tok.isIns]
+  simp only [serializeToks, eraseH_append, h2, r2, he]
+
+set_option linter.unusedSimpArgs false in
+/-- with indentation off nothing is inserted -/
+theorem step_noIns (c : HtmlCfg) (hd : c.doIndent = false) (s : HSt) (e : Ev) : eraseH (step c s e).2 = (step c s e).2 := by
+  have hi : ∀ st, shouldIndent c st = false := by intro st; simp [shouldIndent, hd]
+  cases e with
+  | startElement n a =>
+    simp only [step, startElement]
+    cases hasNamespace c n
+    · simp [htmlStartElement, startIndentBlock, metaBlock, hd, eraseH_cons, HTok.isIns, Tok.isIns]
+      split <;> (try split) <;> (try split) <;> simp [eraseH_cons, HTok.isIns, Tok.isIns]
+    · simp [xmlStartElement, hi, eraseH_cons, HTok.isIns, Tok.isIns]
+  | endElement n =>
+    simp only [step, endElement]
+    cases s.hasNamespaceStack.headD false
+    · simp only [Bool.false_eq_true, if_false, htmlEndElement, endIndentBlock, hd]
+      rcases s.elemStack with _ | ⟨_ | _, r⟩ <;> simp [eraseH_cons, HTok.isIns, Tok.isIns] <;>
+        (try split) <;> (try split) <;> simp [eraseH_cons, HTok.isIns, Tok.isIns]
+    · simp only [if_true, xmlEndElement, hi]
+      rcases s.elemStack with _ | ⟨_ | _, r⟩ <;> simp [eraseH_cons, HTok.isIns, Tok.isIns]
+  | characters str =>
+    simp only [step, characters, hi]
+    cases str.isEmpty <;> cases s.inScriptElemStack.headD false <;> cases s.isRawStack.headD false <;>
+      simp [eraseH_cons, HTok.isIns, Tok.isIns]
+  | cdata str =>
+    simp only [step, characters, hi]
+    cases str.isEmpty <;> cases s.inScriptElemStack.headD false <;> cases s.isRawStack.headD false <;>
+      simp [eraseH_cons, HTok.isIns, Tok.isIns]
+  | raw str => simp [step, charactersRaw, eraseH_cons, HTok.isIns, Tok.isIns]
+  | comment str => simp [step, comment, hi, eraseH_cons, HTok.isIns, Tok.isIns]
+  | pi tg d =>
+    simp only [step, procInstr, hi]
+    by_cases hl : s.elementLevel = 0 <;> simp [hl, eraseH_cons, HTok.isIns, Tok.isIns]
+
+theorem serializeToks_noIns (c : HtmlCfg) (hd : c.doIndent = false) (evs : List Ev) :
+    eraseH (serializeToks c evs) = serializeToks c evs := by
+  have hr : ∀ (evs : List Ev) (s : HSt), eraseH (runFrom c s evs).2 = (runFrom c s evs).2 := by
+    intro evs
+    induction evs with
+    | nil => intro s; rfl
+    | cons e es ih => intro s; simp only [runFrom, eraseH_append, step_noIns c hd, ih]
+  have hs : eraseH (startDocument c).2 = (startDocument c).2 := by
+    unfold startDocument; split <;> simp [eraseH_cons, HTok.isIns, Tok.isIns]
+  have he : ∀ st, endDocument c st = [] := by intro st; simp [endDocument, hd]
+  simp only [serializeToks, eraseH_append, hs, hr, he, eraseH_nil]
+
+/-- no token inserted for indentation is adjacent to a token carrying character data (HTML token stream) -/
+def hNoAdjFrom : Option Bool → List HTok → Bool
+  | _, [] => true
+  | p, t :: r =>
+    let c := match t with
+      | .t x => x.cls
+      | _ => none
+    clsOk p c && hNoAdjFrom c r
+
+def hNoAdj (l : List HTok) : Bool := hNoAdjFrom none l
 
 end XalanModel.C08.Html
